@@ -234,6 +234,17 @@ def direct_normal_form(a):
     return None
 
 
+def direct_f13_premises(a):
+    """The two SHA-256 facts assumed by Props/C01.v autodetect_refuted, checked with hashlib."""
+    fr = bytes.fromhex("7cdfe43735dad7affd5c9af4541a7071")     # Bip39Autodetect.f13_entropy_fr
+    en = bytes.fromhex("6efec8242e39bd81fc2c2cef923232e9")     # Bip39Autodetect.f13_entropy_en
+    if hashlib.sha256(fr).digest()[0] >> 4 != 0b0001:
+        return "first four bits of SHA-256(f13_entropy_fr) are not 0001"
+    if hashlib.sha256(en).digest()[0] >> 4 != 0b1011:
+        return "first four bits of SHA-256(f13_entropy_en) are not 1011"
+    return None
+
+
 def L(l):
     return _mlang(l)
 
@@ -257,6 +268,7 @@ FUNCS = {
     "bip39_normalize": Func(model=lambda m, a: m.call("bip39_normalize", a[0]), impl=impl_normalize,
                             direct=direct_normalize),
     "wordlist_normal_form": Func(direct=direct_normal_form),
+    "f13_sha_premises": Func(direct=direct_f13_premises),
 }
 
 
@@ -387,6 +399,7 @@ def generate(ctx):
         ctx.run("wordlist_normal_form", [i], "exhaustive-2048")
     ctx.note_exhaustive("all 9 x 2048 listed words are fixed points of lower+NFKD (hypothesis of decode_encode)")
 
+    ctx.run("f13_sha_premises", [], "hashlib", trivial=True)
     # F13 and its class: valid French sentences inside the English list
     run_all_decoders(ctx, None, F13_SENTENCE, "f13")
     run_all_decoders(ctx, FR, F13_SENTENCE, "f13-explicit")
